@@ -623,6 +623,12 @@ func runTask(tp *TaskPlan, t *ctask, client *webdav.Client, tr *concTransport) {
 		}
 		g.logf("call %d %s %s", i, st.Method, st.Target)
 		body := &FaultBody{Data: st.Body, Chunk: st.Chunk}
+		for fi := range st.Faults {
+			if st.Faults[fi].Seam == "req-body" {
+				// this task's upload breaks off (the same way when it runs alone)
+				body.Fault = &st.Faults[fi]
+			}
+		}
 		if st.Chunk < 0 {
 			body.Rng = rt.NewRand(rt.Mix(uint64(t.idx), uint64(i), 0xb0d1))
 		}
